@@ -47,7 +47,9 @@ class Ctx:
             if res is None:
                 raise Internal('driver did not report root %s' % r.name)
             self.roots_analysed += 1; self.paths_analysed += len(res.paths); self.steps += res.steps
-            if not res.ok:
+            if not res.ok and 'undefined behaviour' in res.status:
+                self.viol('ub/%s' % r.name, rule='no undefined behaviour on any explored path (out-of-bounds unchecked access)', where=r.code, found=res.status, expected='in-bounds accesses only')
+            elif not res.ok:
                 self.viol('incomplete/%s' % r.name, rule='fail closed: the analysis must cover the whole root (no unmodelled callee, data-dependent loop or path explosion)', where=r.name, found=res.status, expected='analysable straight-line / finitely branching code')
         return sc
 
